@@ -372,4 +372,22 @@ CHECKS = {
             job("crash", "c09", ["TestC09Crash"], 4, 60, 4, 12),
         ],
     },
+    "C19": {
+        "level": "exploration",
+        "tools": ["lockprobe"],
+        "manifest": {
+            "technique": "property-based differential testing of the database/sql driver against the native API, under the race detector: rapid-generated SQLite-written databases x generated SELECT statements (`*` anywhere in the list, column lists with rowid spellings and duplicates, unknown table/column, non-SELECT and malformed text) x consumption plans (read all, Close after k rows, cancel after k rows, cancel from another goroutine after a generated number of scheduler yields, a page overwritten with 0xFF or the file truncated before the scan)",
+            "level_text": "Generated (database, query, plan) triples; oracle: rows equal the native Select with `*` expanded to Columns() in definition order; whenever the native call fails an error surfaces through Query, Scan or rows.Err (a short result with a nil error is the violation); after Close/cancel rows.Close returns, no producer goroutine remains (stack dump, polled up to 5 s) and an out-of-process probe sees no lock of ours. Built with -race. Schedules of the cancel/producer race are sampled by the Go scheduler, not enumerated.",
+            "level_note": "Corruption is applied to the file before the query (pages other than the first), so 'mid-scan' means pages the scan reaches later. Column names are compared case-insensitively.",
+        },
+        "rule": ("database: one table from the core CREATE TABLE grammar with 0-45 parameter rows and optional bulk rows (<= 400), page size 512/1024/4096. Non-trivial = anything but a plain complete read of an empty result "
+                 "(a plan other than 'all', a bad query, or rows). Distinct = fingerprint of the spec."),
+        "assumptions": ["system libsqlite3 (3.40.1) writes the databases"],
+        "min_nontrivial": {"quick": 150, "thorough": 3000},
+        "required_classes": ["plan:all", "plan:close", "plan:cancel", "plan:cancel-async", "plan:corrupt", "plan:truncate", "bad:table", "bad:column", "bad:not-select", "star=true", "rows<=1000"],
+        "timeout": {"quick": 500, "thorough": 2400},
+        "jobs": [
+            job("driver", "c19", ["TestC19Driver"], 200, 3000, 3, 10, race=True),
+        ],
+    },
 }
